@@ -231,7 +231,7 @@ func init() {
 			return act && inact && countKind(h, "introspect")+countKind(h, "introspect_ep") > 0
 		},
 		rule: common + "the probes contain active and inactive answers and the history has explicit introspections (hints, required scopes, tampered tokens)"})
-	regHist(&histProp{id: "C16", profile: mk("C16", func(p *Profile) {
+	regHist(&histProp{id: "C16", profile: mk("C16", func(p *Profile) { p.Contract = 35;
 		p.WAuthorize, p.WRedeem, p.WRefresh, p.WRevoke, p.WPassword, p.WPush, p.WAuthorizePAR = 3, 3, 8, 3, 1, 0, 0
 		p.WDeviceAuth, p.WDecide, p.WDevicePoll, p.WAdvance, p.Bad, p.ShortLives = 16, 16, 34, 10, 32, 45
 	}), module: "Cases.Monitors", checkFn: "check_C16", quickN: 300, thoroN: 5000,
